@@ -165,6 +165,37 @@ Theorem C12_validator_accepts_unreadable_refuted :
 Proof. exact validator_accepts_unreadable_refuted. Qed.
 Print Assumptions C12_validator_accepts_unreadable_refuted.
 
+(* two adjacent names: the reader joins two consecutive identifiers with a blank and looks the result
+   up in the (generated) keyword table *)
+Theorem C12_reader_joins_iff :
+  forall a b, validate_label (Some a) = true ->
+    (reader_joins a b = true <-> In (lower_text a, lower_text b) two_word_keywords).
+Proof. exact reader_joins_iff. Qed.
+Print Assumptions C12_reader_joins_iff.
+
+Theorem C12_names_section_read_spec :
+  forall names, Forall (fun s => validate_label (Some s) = true) names ->
+    (names_section_read names = true <->
+     (Forall (fun s => label_safe AsVariable s = true) names /\ adjacent_join names = false)).
+Proof. exact names_section_read_spec. Qed.
+Print Assumptions C12_names_section_read_spec.
+
+(* the open finding lp_label_two_word_keyword against the generated table: `subject` and `to` are
+   each read back, listed next to each other in the Binary section they are not *)
+Theorem C12_adjacent_names_refuted :
+  let subject := [115; 117; 98; 106; 101; 99; 116]%N in
+  let to := [116; 111]%N in
+  let Such := [83; 117; 99; 104]%N in
+  let THAT := [84; 72; 65; 84]%N in
+  (validate_label (Some subject) = true /\ validate_label (Some to) = true /\
+   reader_reads_label AsVariable subject = true /\ reader_reads_label AsVariable to = true /\
+   names_section_read [subject; to] = false /\ names_section_read [to; subject] = true) /\
+  (reader_reads_label AsVariable Such = true /\ reader_reads_label AsVariable THAT = true /\
+   names_section_read [Such; THAT] = false) /\
+  two_word_keywords = [(subject, to); ([115; 117; 99; 104]%N, [116; 104; 97; 116]%N)].
+Proof. exact adjacent_names_refuted. Qed.
+Print Assumptions C12_adjacent_names_refuted.
+
 Theorem C12_wrap_constants_match_source :
   WRAP_BREAK = [NL; SP] /\ WRAP_BREAK_LINE_LEN = 1%nat /\ TARGET = TARGET_LINE_LEN.
 Proof. exact wrap_constants_match_source. Qed.
